@@ -290,6 +290,12 @@ def sym_int_of(s, base=10):
     else:
         isdig = conj(disj([rng(e, 48, 57), rng(e, 65, 70), rng(e, 97, 102)]) for e in s.el)
     if ctx.branch(isdig):
+        import sys as _sys
+        lim = _sys.get_int_max_str_digits() if hasattr(_sys, 'get_int_max_str_digits') else 0
+        if base == 10 and lim and len(s.el) > lim:
+            # CPython >= 3.11: int() of a decimal string with more digits than sys.get_int_max_str_digits()
+            raise ValueError('Exceeds the limit (%d digits) for integer string conversion: value has %d digits; use '
+                             'sys.set_int_max_str_digits() to increase the limit' % (lim, len(s.el)))
         if base == 16 and len(s.el) <= 8:
             # stay in the bit-vector theory: nibbles of a 32-bit value
             v = z3.BitVecVal(0, 32)
